@@ -55,3 +55,32 @@ class M(Model):
         if int(obs.step_count) != int(s.step_count):
             out.append(("step_count differs from the state", f"{int(obs.step_count)} vs {int(s.step_count)}"))
         return out
+
+    # ---- constructive moves for the 'solve' plan mode
+    def solve_action(self, s, r=0):
+        """First move of a sequence of <= 2 (<= 3 for small move sets) moves that solves the cube, searched with
+        the geometric move tables of vf/models/cube.py (C17); None when there is none or the tables are absent."""
+        try:
+            from vf.models import cube as cm
+        except Exception:  # noqa: BLE001 - the C17 model is optional here
+            return None
+        c = np.asarray(s.cube).astype(np.int64)
+        if c.shape != (6, self.n, self.n):
+            return None
+        table = cm.perm_table(self.n)  # (A, 6 n^2)
+        A = table.shape[0]
+        depth = 3 if A <= 18 else 2
+
+        def uniform(rows):
+            f = rows.reshape(rows.shape[0], 6, -1)
+            return (f.min(-1) == f.max(-1)).all(-1)
+
+        rows = c.reshape(1, -1)
+        first = np.full(1, -1)
+        for _ in range(depth):
+            rows = rows[:, table].reshape(-1, rows.shape[1])          # row i*A + a = rows[i] after move a
+            first = np.where(np.repeat(first, A) < 0, np.tile(np.arange(A), len(first)), np.repeat(first, A))
+            hit = np.flatnonzero(uniform(rows))
+            if hit.size:
+                return [int(x) for x in cm.unflatten(self.n, int(first[hit[int(r) % hit.size]]))]
+        return None
